@@ -621,10 +621,12 @@ def run(rep):
     violations = []          # (sig, text, replay)
     nonvac = {"sync": False, "async": False}
 
-    def do_scenario(scn, label, dfs_limit, n_random, judge=True):
+    def do_scenario(scn, label, dfs_limit, n_random, judge=True, force=False):
         if len(violations) >= 4:
             return              # enough concrete failing inputs: no need to go on exploring
-        if time.time() - t_start > budget:
+        # the budget is wall-clock (a loaded machine uses it up sooner): what it skips is exploration, never the
+        # non-vacuity runs (force=True) — a skipped run must not turn into an alarm
+        if not force and time.time() - t_start > budget:
             dist["skipped_over_budget"] = dist.get("skipped_over_budget", 0) + 1
             return
         dist["scenarios"] += 1
@@ -836,7 +838,7 @@ def run(rep):
         for kinds in ([["send_input", "send_input"], ["get_prompt", "send_input_and_read"], ["send_inputs_interact", "get_prompt"]]
                       + ([[rng.choice(OPS) for _ in range(3)] for _ in range(4)] if thorough else [])):
             scn = make_scenario(stack, False, kinds)
-            do_scenario(scn, "lock-off", 150 if thorough else 60, 40)
+            do_scenario(scn, "lock-off", 150 if thorough else 60, 40, force=True)
     for stack in stacks:
         if not nonvac[stack]:
             rep.broken.append("scheduler never interleaved two %s callers with the lock off (vacuous exploration)" % stack)
